@@ -63,10 +63,10 @@ FILES = {
 # file-level default: is a passing harness a complete (unbounded) proof?
 BOUNDED_FILES = {
     'cssbuf.rs': 'buffer prefix <= 4 bytes (the functions read only the last 2 bytes); style concrete per harness',
-    'unitset.rs': 'operands of at most 2 unit entries',
+    'unitset.rs': 'left operand of at most 2 unit entries, right operand 1; units concrete, exponents symbolic',
     'ordermap.rs': 'maps of at most 3 entries; key type u8 with == modulo 4',
     'opt.rs': 'sequences of at most 4 items, payload type u8',
-    'value.rs': 'one representative payload per constructor, depth <= 1',
+    'value.rs': 'one representative payload per non-recursive constructor (no nested Value)',
     'comment.rs': 'comment text of bounded length',
 }
 
@@ -77,9 +77,11 @@ OVERRIDES = [
     (r'^c01_long_indent_contract_enumerated$', dict(bounded='every concrete length 81..=160', tier='thorough', timeout=1800)),
     (r'^c01_get_indent_contract$', dict(bounded='len <= 160; modular in long_indent, whose contract is checked for sampled/enumerated lengths only')),
     (r'^c28_get_list_shape$', dict(bounded='lists of at most 2 elements')),
-    (r'^c14_operator_and_or_select', dict(bounded='one representative operand per value kind')),
-    (r'^c11_operator_(plus|minus)_', dict(bounded='right operand magnitude fixed (3.0); left operand all finite doubles up to 1e9; all 29x29 unit pairs')),
-    (r'^c11_numeric_(cmp|as_unit)', dict(bounded='probe magnitudes fixed; all 29x29 unit pairs')),
+    (r'^c14_operator_and_or_', dict(bounded='left operand one representative per value kind; right operand true / null / number')),
+    (r'^c11_operator_(plus|minus)_', dict(bounded='11 representative ordered unit pairs; right magnitude 3; left magnitude all finite doubles up to 1e9')),
+    (r'^c12_operator_cmp', dict(bounded='unit px only')),
+    (r'^c11_numeric_cmp_', dict(bounded='13 representative ordered unit pairs, probe magnitudes 1 and 3')),
+    (r'^c11_numeric_unitless_vs_percent', dict(bounded='concrete probe values')),
     (r'^c31_roundtrip_', dict(kind='attempt', tier='thorough', timeout=1800)),
     (r'^c31_rgba_to_hwba_in_range$', dict(kind='attempt', tier='thorough', timeout=1800)),
     (r'^c31_rgba_grey_to_hsla$', dict(kind='attempt', tier='thorough', timeout=1800)),
@@ -96,13 +98,14 @@ EXTRA_PROPS = [
     (r'^c31_color_set_alpha|^c31_.*set_alpha', ['C32']),
     (r'^c01_number_into_integer', ['C28', 'C17']),
     (r'^c12_number_', ['C11']),
-    (r'^c01_unitset_', ['C11']),
     (r'^c31_max_min_largest|^c31_rgba_to_hsla|^c31_hsla_to_rgba', ['C32']),
 ]
 
 _h_re = re.compile(r'^\s*fn\s+((?:c\d\d|cover|canary)_[A-Za-z0-9_]+)\s*\(\s*\)', re.M)
 _per_style_re = re.compile(r'^per_style!\((\w+),\s*(\w+),\s*(\w+),\s*(\w+)\);', re.M)
-_target_re = re.compile(r'^target!\((\w+),\s*\w+\);', re.M)
+_target_re = re.compile(r'^(?:target|left|pair|per_tag|per_kind)!\((\w+),', re.M)
+_shape_re = re.compile(r'^shape!\((\w+),\s*(\w+),', re.M)
+_pair2_re = re.compile(r'^pair!\((c11_operator_\w+),\s*(c11_operator_\w+),', re.M)
 _mac_re = re.compile(r'^(?:per_\w+|gen_\w+)!\(([^;]*)\);', re.M)
 
 
@@ -128,6 +131,10 @@ def discover(kani_dir=KANI_DIR):
             names += [m.group(2), m.group(3), m.group(4)]
         for m in _target_re.finditer(text):
             names.append(m.group(1))
+        for m in _shape_re.finditer(text):
+            names += [m.group(1), m.group(2)]
+        for m in _pair2_re.finditer(text):
+            names += [m.group(1), m.group(2)]
         for m in re.finditer(r'^(?:gen_\w+)!\(\s*(\w+)\s*[,)]', text, re.M):
             names.append(m.group(1))
         seen = set()
